@@ -163,16 +163,38 @@ def generic_sequence_update(
         )
 
 
+def _inside_removed_node(node, removed_nodes) -> bool:
+    """True if node is located inside one of the nodes which are replaced or
+    deleted as a whole (a nested snapshot() whose parent gets replaced)."""
+    node = getattr(node, "parent", None)
+    while node is not None:
+        if node in removed_nodes:
+            return True
+        node = getattr(node, "parent", None)
+    return False
+
+
 def apply_all(all_changes: List[Change], recorder: ChangeRecorder):
     by_parent: Dict[
         EnhancedAST, List[Union[Delete, DictInsert, ListInsert, CallArg]]
     ] = defaultdict(list)
     sources: Dict[EnhancedAST, SourceFile] = {}
 
+    removed_nodes = {
+        change.node
+        for change in all_changes
+        if isinstance(change, (Replace, Delete)) and change.node is not None
+    }
+
     for change in all_changes:
         if change.node is None:
             # the calling expression is unknown (no source), the change can
             # be reported but not applied
+            continue
+
+        if _inside_removed_node(change.node, removed_nodes):
+            # changes of a nested snapshot() which gets replaced together
+            # with its parent would overlap with the change of the parent
             continue
 
         if isinstance(change, Delete):
